@@ -710,10 +710,16 @@ class C20:
             for r in recs:
                 ops.append(L(r, 0, 1))
                 ops.append(f"R 1 {hexs(r)}")
+            ops.append("S " + hexs(data))
             impl = core.run_impl("std", ops)
             model = core.run_model("std", ops)
             exp_out, exp_err = [], []
             tie_ok = True
+            # the model's record splitting, std's BufRead::split and this script's must agree
+            want_split = "ok %d %s" % (len(recs), ",".join(hexs(r) for r in recs))
+            if impl[-1].strip() != want_split.strip() or model[-1].strip() != want_split.strip():
+                rep.violation("C20: record splitting differs between BufRead::split, the model and the checker",
+                              {"stream_hex": data.hex(), "impl": impl[-1], "model": model[-1], "checker": want_split})
             for i, r in enumerate(recs):
                 la, ra = impl[2 + 2 * i], impl[3 + 2 * i]
                 lm = model[2 + 2 * i]
